@@ -64,6 +64,7 @@ def units(tier):
     for e in "bln":
         us.append({"kind": "float16", "endian": e})
     us.append({"kind": "floats"})
+    us.append({"kind": "macros"})
     lim = INFO["bounds"][tier]["varint_below"]
     step = 1 << 12 if tier == "quick" else 1 << 15
     for lo in range(0, lim, step):
@@ -321,9 +322,45 @@ def corruptions(v):
     return out
 
 
-def run_term(t, tn, L, r):
+def macro_cases():
+    """declaration spellings the term builder does not use: name -> (factory of the real construct, the term it must mean).
+    Keyword members are members like positional ones (in keyword order, after the positional ones) for every composite that takes them."""
+    import construct as C
+    B, I16 = G.BYTE, G.I(2, False, "b")
+    al = lambda x: ["Aligned", 4, x, b"\x00"]
+    bit = lambda n: ["BitsInteger", n, False, False]
+    return {
+        "AlignedStruct(4, a/Byte, b/Int16ub)": (lambda: C.AlignedStruct(4, "a" / C.Byte, "b" / C.Int16ub), ["Struct", [["a", al(B)], ["b", al(I16)]]]),
+        "AlignedStruct(4, a=Byte, b=Int16ub)": (lambda: C.AlignedStruct(4, a=C.Byte, b=C.Int16ub), ["Struct", [["a", al(B)], ["b", al(I16)]]]),
+        "AlignedStruct(4, a/Byte, b=Int16ub, c=Byte)": (lambda: C.AlignedStruct(4, "a" / C.Byte, b=C.Int16ub, c=C.Byte), ["Struct", [["a", al(B)], ["b", al(I16)], ["c", al(B)]]]),
+        "Struct(a=Byte, b=Int16ub)": (lambda: C.Struct(a=C.Byte, b=C.Int16ub), ["Struct", [["a", B], ["b", I16]]]),
+        "Struct(a/Byte, b=VarInt)": (lambda: C.Struct("a" / C.Byte, b=C.VarInt), ["Struct", [["a", B], ["b", ["VarInt"]]]]),
+        "Sequence(Byte, b=Int16ub)": (lambda: C.Sequence(C.Byte, b=C.Int16ub), ["Sequence", [[None, B], ["b", I16]]]),
+        "BitStruct(a=BitsInteger(3), b=BitsInteger(5))": (lambda: C.BitStruct(a=C.BitsInteger(3), b=C.BitsInteger(5)), ["Bitwise", ["Struct", [["a", bit(3)], ["b", bit(5)]]]]),
+        "BitStruct(a/Nibble, b=Nibble)": (lambda: C.BitStruct("a" / C.Nibble, b=C.Nibble), ["Bitwise", ["Struct", [["a", bit(4)], ["b", bit(4)]]]]),
+        "FocusedSeq('b', a=Const, b=Byte)": (lambda: C.FocusedSeq("b", a=C.Const(b"\x01"), b=C.Byte), ["FocusedSeq", "b", [["a", ["ConstB", b"\x01"]], ["b", B]]]),
+        "LazyStruct(a=Byte, b=Int16ub)": (lambda: C.LazyStruct(a=C.Byte, b=C.Int16ub), ["LazyStruct", [["a", B], ["b", I16]]]),
+        "Select(a=Int16ub, b=Byte)": (lambda: C.Select(a=C.Int16ub, b=C.Byte), ["Select", [I16, B]]),
+        "Union(0, a=Int16ub, b=Byte)": (lambda: C.Struct("u" / C.Union(0, a=C.Int16ub, b=C.Byte), "t" / C.Byte), ["Struct", [["u", ["Union", 0, [["a", I16], ["b", B]]]], ["t", B]]]),
+        "Byte[2] / Array": (lambda: C.Byte[2], ["Array", 2, B]),
+        "Padding(3, pattern)": (lambda: C.Struct("a" / C.Byte, C.Padding(3, b"\x7f"), "b" / C.Byte), ["Struct", [["a", B], [None, ["Padding", 3, b"\x7f"]], ["b", B]]]),
+        "Optional(Const)": (lambda: C.Struct("o" / C.Optional(C.Const(b"\x01\x02")), "t" / C.Byte), ["Struct", [["o", ["Optional", ["ConstB", b"\x01\x02"]]], ["t", B]]]),
+    }
+
+
+def run_macros(r):
+    for name, (mk, t) in macro_cases().items():
+        n0 = len(r.violations)
+        run_term(t, "TM", 4, r, d=mk())
+        for v in r.violations[n0:]:
+            v["case"]["macro"] = name
+            v["detail"] = "[declared as %s] " % name + v["detail"]
+    r.sample({"macro_spellings": len(macro_cases())})
+
+
+def run_term(t, tn, L, r, d=None):
     try:
-        d = T.mk(t)
+        d = T.mk(t) if d is None else d
     except Exception as e:
         r.violation("C03/construction-raised/" + T.sig_of(t), {"term": t, "op": "mk"}, "constructing %s raised %r" % (T.show(t), e))
         return
@@ -398,6 +435,8 @@ def run_unit(unit, tier):
     if k == "terms":
         for t, tn, L in unit["terms"]:
             run_term(t, tn, L, r)
+    elif k == "macros":
+        run_macros(r)
     elif k == "smallint":
         run_smallint(unit, r)
     elif k == "float16":
@@ -804,7 +843,7 @@ def replay(case):
             return []
         except Exception as e:
             return [{"sig": "C03/construction-raised", "detail": repr(e)}]
-    d = T.mk(t)
+    d = T.mk(t) if "macro" not in case else macro_cases()[case["macro"]][0]()
     if case["op"] == "parse":
         return cmp_parse(t, d, case["data"], kw, T.sig_of(t))[1]
     return cmp_build(t, d, dec_value(case["value"]), kw, T.sig_of(t))[1]
